@@ -60,6 +60,8 @@ def render(nodes):
       return out
     if k == 'G':
       return [f'{sp}<geom name="G{i}" type="box" size="0.05 0.03 0.02" mass="{0.5 + 0.25 * (i % 3)}"{pose_attrs(n)}/>']
+    if k == 'F' and n.get('as_site'):      # MJCF allows the from-to shorthand on sites too
+      return [f'{sp}<site name="F{i}" type="capsule" size="0.02" fromto="{fstr(n["ft"][0])} {fstr(n["ft"][1])}"/>']
     if k == 'F':
       return [f'{sp}<geom name="F{i}" type="capsule" size="0.02" mass="0.3" fromto="{fstr(n["ft"][0])} {fstr(n["ft"][1])}"/>']
     if k == 'S':
@@ -90,6 +92,13 @@ def mj_eval(xml, nodes):
       obs[i] = ('pose', d.xpos[bid].copy(), d.xquat[bid].copy())
     elif k in ('G', 'F'):
       gid = mujoco.mj_name2id(m, mujoco.mjtObj.mjOBJ_GEOM, f'{k}{i}')
+      if gid < 0 and k == 'F':
+        sid = mujoco.mj_name2id(m, mujoco.mjtObj.mjOBJ_SITE, f'F{i}')
+        if sid >= 0:
+          ax = d.site_xmat[sid].reshape(3, 3)[:, 2]
+          h = m.site_size[sid][1]
+          obs[i] = ('ends', d.site_xpos[sid] - h * ax, d.site_xpos[sid] + h * ax)
+          continue
       if gid < 0:
         obs[i] = None
         continue
@@ -216,12 +225,28 @@ def relational_documents(ctx, states, r):
   n = 0
   for st in states:
     nodes = [dict(x) for x in st['src']]
-    mode = r.choice(['far', 'generic', 'tiny'])
+    mode = r.choice(['far', 'generic', 'tiny', 'elided', 'elided'])
     def P(v):
       return tuple((int(round(x * 10**6)), 10**6) for x in v)
+    zero, ident = ((0, 1),) * 3, ((1, 1), (0, 1), (0, 1), (0, 1))
     for nd in nodes:
       if nd['kind'] == 'F':
+        # from-to capsules are sometimes written as sites
+        if r.random() < 0.4:
+          nd['as_site'] = True
         continue
+      if mode == 'elided':
+        # documents that rely on the MJCF defaults: elements without a pos (and quat) attribute, jointless bodies that
+        # are pure translations or pure rotations
+        if nd['kind'] in ('G', 'S') and r.random() < 0.6:
+          nd['pos'] = zero
+          if r.random() < 0.5:
+            nd['quat'] = ident
+        if nd['kind'] == 'W':
+          if r.random() < 0.5:
+            nd['quat'] = ident
+          elif r.random() < 0.3:
+            nd['pos'] = zero
       if mode == 'far' and r.random() < 0.5:
         nd['pos'] = P([r.choice([12.5, -120.25, 1203.125, 37.0]) * r.choice([1, -1]), r.uniform(-1, 1), r.uniform(-150, 150)])
       if mode == 'generic':
